@@ -31,3 +31,6 @@ def run(prog, rep):
     _rk13.run_setter_verbatim(prog, rep, classes=('nix::SampledDimension', 'nix::RangeDimension', 'nix::SetDimension', 'nix::DataFrameDimension', 'nix::DataArray'), floor=8)
     _rk13.run_store_verbatim(prog, rep)
     _rk13.run_getter_verbatim(prog, rep)
+    _rio3.run_replace_extent(prog, rep)
+    from ..rules import r_del as _rdbh
+    _rdbh.run_backend_by_handle(prog, rep)
